@@ -578,3 +578,6 @@ def parts(tier):
 def exhaustive_note(tier, total):
     return {'exhaustive': False,
             'exhaustive_subdomains': [v for k, v in sorted(total.notes.items()) if k.startswith('sweep_') and k.endswith('_domain')]}
+
+
+RULE += '  Added after the seeding rounds: part handle-history (is_bit_file and the reader on one open file object, any order); arbitrary / foreign-magic values in the four unknown head bytes.'
